@@ -29,4 +29,6 @@ def queries(tier, prop='C07'):
             add(e, es)
         for h in (('hist2', 'hist3_core', 'hist3_rest') if quick else ('hist2', 'hist3', 'hist5_core', 'hist5_rest')):
             add(h, es, budget=300 if quick else 2400)
+    if ub and quick:   # C02 quick: the non-trivial instantiation only; C02 thorough runs the whole grid with the UB build
+        out = [q for q in out if q['cfg']['ESEL'] == 2]
     return out
